@@ -19,8 +19,61 @@ import copy
 KEEP = {'_find_bonds_for_atoms'}      # helpers of the pinned tree that rules name as call targets
 
 
+LATER_HELPERS = set()      # per module: names read as helpers although they carry no underscore
+
+
 def _is_private(name):
+    if name in LATER_HELPERS:
+        return True
     return name.startswith('_') and not name.startswith('__') and name not in KEEP
+
+
+def later_helpers(tree, modname, elsewhere):
+    """Functions and methods of this module that the tree on which the rules were
+    confirmed does not have (tables/known_functions.json) and that no other
+    module mentions: helpers introduced by a later change.  They are expanded at
+    their call sites like private helpers, so that the rules see what the
+    functions they are stated on do."""
+    import json
+    import os
+    import re
+    path = os.path.join(os.path.dirname(os.path.dirname(os.path.abspath(__file__))), 'tables',
+                        'known_functions.json')
+    try:
+        with open(path, encoding='utf-8') as handle:
+            table = json.load(handle)
+            known = set(table['names'].get(modname, []))
+            known_nested = set(table.get('nested', {}).get(modname, []))
+    except (OSError, ValueError, KeyError):
+        return set()
+    if not known:
+        return set()
+    found = set()
+    # functions defined inside a function that the confirmed tree does not have
+    for fn in ast.walk(tree):
+        if isinstance(fn, ast.FunctionDef):
+            for sub in ast.walk(fn):
+                if sub is not fn and isinstance(sub, ast.FunctionDef) and sub.name not in known_nested \
+                        and not sub.name.startswith('_'):
+                    found.add(sub.name)
+    for st in tree.body:
+        cands = []
+        if isinstance(st, ast.FunctionDef):
+            cands.append((st.name, st.name))
+        if isinstance(st, ast.ClassDef) and st.name in known:
+            for sub in st.body:
+                if isinstance(sub, ast.FunctionDef):
+                    cands.append((st.name + '.' + sub.name, sub.name))
+        for qual, name in cands:
+            if qual in known or name.startswith('_'):
+                continue
+            if re.search(r'\b%s\b' % re.escape(name), elsewhere):
+                continue
+            # a method name that a known class also defines elsewhere is an override, not a helper
+            if '.' in qual and any(k.endswith('.' + name) for k in known):
+                continue
+            found.add(name)
+    return found
 
 
 def _simple_expr(e):
@@ -628,8 +681,11 @@ def _expand_exprs(node, helpers, scope_cls):
     return count
 
 
-def inline_private_helpers(tree):
+def inline_private_helpers(tree, modname=None, elsewhere=''):
     """Returns the number of call sites expanded."""
+    LATER_HELPERS.clear()
+    if modname is not None:
+        LATER_HELPERS.update(later_helpers(tree, modname, elsewhere))
     total = 0
     expanded_names = set()
     for _round in range(4):
